@@ -52,6 +52,57 @@ def candidates(prop):
     return out
 
 
+def _touched(patch):
+    out = set()
+    for line in open(patch, errors="replace"):
+        if line.startswith("+++ b/"):
+            out.add(line[6:].strip())
+    return out
+
+
+def negative_candidates(prop):
+    """behaviour-preserving patches (neutral/) that touch a file the property is anchored in"""
+    anchors = set()
+    for line in open(os.path.join(HERE, "properties.jsonl")):
+        pj = json.loads(line)
+        if pj["id"] == prop:
+            anchors = set(pj.get("anchors", {}).get("files", []))
+    out = []
+    for f in sorted(glob.glob(os.path.join(HERE, "neutral", "*.diff"))):
+        if _touched(f) & anchors:
+            out.append((os.path.basename(f)[:-5], f))
+    return out
+
+
+def run_negative(prop, repo, known_keys, limit=12):
+    """negative controls: the property's quick rules must stay silent on behaviour-preserving variants of its code"""
+    cands = negative_candidates(prop)[:limit]
+    res = []
+    if not cands:
+        return res
+    os.makedirs(SCRATCH_ROOT, exist_ok=True)
+    lock = open(os.path.join(SCRATCH_ROOT, f"{prop}.lock"), "w")
+    fcntl.flock(lock, fcntl.LOCK_EX)
+    scratch = os.path.join(SCRATCH_ROOT, prop)
+    try:
+        for name, patch in cands:
+            _copy_tree(repo, scratch)
+            if _sh(f"patch -p1 --dry-run -s -f < {patch}", cwd=scratch).returncode != 0 or _sh(f"patch -p1 -s -f < {patch}", cwd=scratch).returncode != 0:
+                res.append({"control": name, "status": "skipped", "reason": "patch does not apply to the current tree"})
+                continue
+            r = _sh(f"VERIF_NO_CONTROLS=1 {HERE}/check {prop} --tier quick --no-evidence --repo {scratch}")
+            fired = [k for k in re.findall(r"^\s+key=(.+?)\s*$", r.stdout, re.M) if k not in known_keys]
+            if "CHECKER-ERROR" in r.stdout:
+                res.append({"control": name, "status": "no-verdict", "detail": r.stdout[-300:]})
+            else:
+                res.append({"control": name, "status": "silent" if not fired else "false-alarm", "fired_keys": fired[:8]})
+    finally:
+        shutil.rmtree(scratch, ignore_errors=True)
+        fcntl.flock(lock, fcntl.LOCK_UN)
+        lock.close()
+    return res
+
+
 def run(prop, repo, known_keys):
     cands = candidates(prop)
     res = []
